@@ -322,6 +322,11 @@ Step ==
             ELSE LET r == FpConv(a.x, DstFmtOf(op)) IN
                  IF r.c = "inexact" THEN GoUndef("inexact fp conversion") ELSE WriteDst(I.d, FpV(r), nxt, NoOvf)
        [] op = "jmp" -> Jump(I.l)
+       \* property insns: no machine code of their own; a property is a compile-time tag of a variable that only lazy basic block
+       \* versioning tracks -- everywhere else (and here) every property is 0, so `prbeq L, x, c` jumps iff c = 0.  Programs using
+       \* them are meaningful only if both ways lead to the same observations (the families of families.py are built that way).
+       [] op = "prset" -> Jump(nxt)
+       [] op \in {"prbeq", "prbne"} -> Jump(IF (op = "prbeq") = (I.s[2].w = Zero64) THEN I.l ELSE nxt)
        [] op \in Br1 ->
             LET a == IF op \in Br32 THEN AsInt32(Eval(R, mem, I.s[1])) ELSE AsInt(Eval(R, mem, I.s[1])) IN
             IF IsBad(a) THEN GoUndef(a.why) ELSE Jump(IF Taken1(op, a.w) THEN I.l ELSE nxt)
